@@ -394,6 +394,8 @@ func runC04(e *env) {
 		if o.LoadErr != "" {
 			e.m.count("load_error")
 			e.m.sampleErr(spec.Name + ": " + o.LoadErr)
+			// an input of the harness that is not a well-typed package is a defect of the harness, not a silent skip
+			e.m.fail(oracleFailure{What: "the input module " + spec.Name + " does not load (harness input not well-typed): " + o.LoadErr, Input: spec, NoInput: true})
 			continue
 		}
 		if o.Outcome != "ok" {
